@@ -4,7 +4,9 @@ seed, at /repo HEAD) and record the outcome in seeded/<id>/meta.json under "chec
 usage: evalall.py [<seed-id> ...]"""
 import json, os, re, subprocess, sys
 VERIF = os.path.dirname(os.path.dirname(os.path.abspath(__file__)))
-EXTRA = {"C01-2": ["C02"], "C08-2": ["C02"], "C10-2": ["C02"]}
+EXTRA = {"C01-2": ["C02"], "C08-2": ["C02"], "C10-2": ["C02"],
+         # input-buffer migration reordering rows: also a violation of C19's per-producer order
+         "C01-8": ["C19"], "C05-7": ["C19"], "C09-6": ["C19"], "C14-6": ["C19"], "C15-7": ["C19"], "C17-8": ["C19"]}
 
 def main():
     ids = sys.argv[1:] or sorted(d for d in os.listdir(os.path.join(VERIF, "seeded")) if os.path.isdir(os.path.join(VERIF, "seeded", d)))
